@@ -58,11 +58,12 @@ var smallOps = []string{"edit:a.txt", "revert:a.txt", "run:A", "run:A,B", "force
 var ops = []string{"edit:a.txt", "revert:a.txt", "edit:b.txt", "run:A", "run:B", "run:A,B", "force:A", "force:A,B", "fail:A", "unfail:A", "rmcache", "add:c.txt", "del:c.txt"}
 
 type world struct {
-	dir     string
-	prog    program
-	runner  *recRunner
-	lastOK  map[string]string // task -> snapshot of inputs at its last successful completion ("" = never / cache removed since)
-	version map[string]int
+	dir         string
+	prog        program
+	runner      *recRunner
+	failedSince map[string]bool
+	lastOK      map[string]string // task -> snapshot of inputs at its last successful completion ("" = never / cache removed since)
+	version     map[string]int
 }
 
 func (w *world) snapshot(task string) string {
@@ -157,7 +158,10 @@ func (w *world) apply(op string, props map[string]bool) string {
 		for _, r := range results {
 			got[r.Task] = true
 			if r.Skipped {
-				if props["C01"] && (w.lastOK[r.Task] == "" || w.lastOK[r.Task] != pre[r.Task]) {
+				if props["C09"] && w.failedSince[r.Task] {
+					return fmt.Sprintf("C09: task %s reported skipped although its last execution failed", r.Task)
+				}
+				if props["C01"] && !w.failedSince[r.Task] && (w.lastOK[r.Task] == "" || w.lastOK[r.Task] != pre[r.Task]) {
 					return fmt.Sprintf("C01: task %s reported skipped but its inputs %q differ from those of its last success %q", r.Task, pre[r.Task], w.lastOK[r.Task])
 				}
 				if props["C14"] && force {
@@ -175,6 +179,11 @@ func (w *world) apply(op string, props map[string]bool) string {
 				}
 				if !w.runner.failing[r.Task] {
 					w.lastOK[r.Task] = pre[r.Task]
+					delete(w.failedSince, r.Task)
+				} else {
+					// C09: a task whose last execution failed is not up to date
+					w.lastOK[r.Task] = ""
+					w.failedSince[r.Task] = true
 				}
 			}
 		}
@@ -196,7 +205,7 @@ func runHistory(p program, hist []string, props map[string]bool) string {
 	}
 	defer os.RemoveAll(dir)
 	dir, _ = filepath.EvalSymlinks(dir)
-	w := &world{dir: dir, prog: p, runner: &recRunner{failing: map[string]bool{}}, lastOK: map[string]string{}, version: map[string]int{}}
+	w := &world{dir: dir, prog: p, runner: &recRunner{failing: map[string]bool{}}, lastOK: map[string]string{}, failedSince: map[string]bool{}, version: map[string]int{}}
 	os.WriteFile(filepath.Join(dir, "a.txt"), []byte("v0"), 0o644)
 	os.WriteFile(filepath.Join(dir, "b.txt"), []byte("v0"), 0o644)
 	for i, op := range hist {
